@@ -24,7 +24,7 @@ import (
 
 type rvSpec struct {
 	Name     string `json:"name"`
-	Owner    string `json:"owner"` // self | other | none
+	Owner    string `json:"owner"` // self | other | none | samename
 	Selector bool   `json:"selector_labels"`
 	Marker   bool   `json:"upgrade_marker"`
 	Revision int64  `json:"revision"`
@@ -62,6 +62,9 @@ func rvJudge(c *rvCase) string {
 			rev.OwnerReferences = []metav1.OwnerReference{{APIVersion: "apps.pingcap.com/v1", Kind: "StatefulSet", Name: set.Name, UID: set.UID, Controller: &tr}}
 		case "other":
 			rev.OwnerReferences = []metav1.OwnerReference{{APIVersion: "apps/v1", Kind: "DaemonSet", Name: "intruder", UID: "other-uid", Controller: &tr}}
+		case "samename":
+			// a different object with the set's kind and name (a deleted and re-created set, or the built-in twin)
+			rev.OwnerReferences = []metav1.OwnerReference{{APIVersion: "apps.pingcap.com/v1", Kind: "StatefulSet", Name: set.Name, UID: "previous-uid", Controller: &tr}}
 		}
 		objs = append(objs, rev)
 		byName[r.Name] = rev
@@ -107,7 +110,7 @@ func rvJudge(c *rvCase) string {
 	}
 	unused := 0
 	for _, r := range c.Revisions {
-		if !live[r.Name] && r.Owner != "other" && (r.Selector || r.Marker) {
+		if !live[r.Name] && r.Owner != "other" && r.Owner != "samename" && (r.Selector || r.Marker) {
 			unused++
 		}
 	}
@@ -137,7 +140,7 @@ func rvJudge(c *rvCase) string {
 
 func TestReplayRevisions(t *testing.T) {
 	_ = os.Getenv("VERIF_PROPERTY")
-	owners := []string{"self", "other", "none"}
+	owners := []string{"self", "other", "none", "samename"}
 	found := 0
 	seenMsg := map[string]bool{}
 	names := []string{"r1", "r2", "r3"}
